@@ -65,9 +65,31 @@ def _tree(lines):
     e = last.get("e")
     if e != "parse":
         return "parse:%s" % e
-    where = "%s;ctx=%s%s" % (last.get("mode"), (last.get("ns") + ":") if last.get("ns") else "", last.get("ctx") or "-")
+    ns, ctx = last.get("ns"), last.get("ctx")
+    where = "%s;ctx=%s%s" % (last.get("mode"), (ns + ":") if ns else "", ctx or "-")
     if last.get("err") == "other":
-        return "parse:error-returned:%s;%s" % (str(last.get("msg", ""))[:50], where)
+        # a recovered internal panic: class = panic text, kind of call, kind of context and the
+        # construct of the input that the failing path needs (when the input is logged)
+        msg = str(last.get("msg", ""))
+        cls = ("nil-dereference" if "nil pointer" in msg else
+               "new-current-node-not-head" if "will be a head element" in msg else
+               "html-element-not-found" if "<html> element not found" in msg else
+               "index-out-of-range" if "index out of range" in msg else msg[:50])
+        cx = "none" if not ctx else ("foreign" if ns else ("head" if ctx == "head" else "html-element"))
+        feat = last.get("feat") or []
+        mode = last.get("mode")
+        # the known classes, each tied to the construct its code path needs
+        if cls == "nil-dereference" and mode == "frag" and cx == "none" and ("<select" in feat or "<input" in feat):
+            return "parse:error-returned:nil-dereference;frag;ctx=none;input-has-select-or-input-start-tag"
+        if cls == "nil-dereference" and mode == "frag" and cx == "foreign" and "</html" in feat:
+            return "parse:error-returned:nil-dereference;frag;ctx=foreign;input-has-html-end-tag"
+        if mode == "frag" and cx == "head":
+            # one root cause: resetInsertionMode picks inHeadIM for a <head> context although only the
+            # root html element is on the stack (marked TODO in the code); inHeadIM / inHeadNoscriptIM
+            # then pop that root or find no head below it
+            return "parse:error-returned;frag;ctx=head;in-head-mode-without-head-element"
+        return "parse:error-returned:%s;%s;ctx=%s;scripting=%s;has=%s" % (
+            cls, mode, cx, "on" if last.get("script") else "off", ",".join(feat) or "-")
     if last.get("render") == "err":
         rv = last.get("rvoid", "-")
         if rv not in ("-", "html"):
